@@ -140,19 +140,38 @@ struct WkdRun {
         int l = R.jv_wk_sk_l(k.sk);
         ExpKey e = expected_key(k.pat, k.rho);
         std::string pats = pat_str(k.pat);
+        if (env.focus == "C12" && (size_t) l <= k.cap) demonstrate_fillable_hidden_slot(k, what);
         if ((size_t) l != e.b.size()) env.fail(prop, "key:free-slot-count", strf("%s: key for pattern %s lists %d free slots, model says %zu", what.c_str(), pats.c_str(), l, e.b.size()));
         if ((size_t) l > k.cap) env.fail("C17", "slot-array-overrun", strf("%s wrote %d free-slot entries, the Go wrapper allocates %zu", what.c_str(), l, k.cap));
         for (int i = 0; i < l; i++) {
             uint32_t idx = R.jv_wk_sk_bidx(k.sk, i);
             if (idx != e.b[(size_t) i].first) env.fail(prop, "key:free-slot-indices", strf("%s: pattern %s: free-slot entry %d has index %u, model says %u (ascending still-free slots)", what.c_str(), pats.c_str(), i, idx, e.b[(size_t) i].first));
-            if (w.c1(w.field<G1v>(JV_OK_WK_SK, k.sk, JV_F_SK_B, i)) != e.b[(size_t) i].second) env.fail(prop, "key:free-slot-element", strf("%s: pattern %s: b element for slot %u is not h_%u^rho", what.c_str(), pats.c_str(), idx, idx));
+            env.soft(w.c1(w.field<G1v>(JV_OK_WK_SK, k.sk, JV_F_SK_B, i)) == e.b[(size_t) i].second, prop, "key:free-slot-element", strf("%s: pattern %s: b element for slot %u is not h_%u^rho", what.c_str(), pats.c_str(), idx, idx));
         }
         if ((R.jv_wk_sk_signatures(k.sk) != 0) != sys.sig) env.fail(prop, "key:signature-flag", what + ": signature flag of the key differs from the parameters");
-        if (w.c2(w.field<G2v>(JV_OK_WK_SK, k.sk, JV_F_SK_A1)) != e.a1) env.fail(prop, "key:a1", strf("%s: pattern %s: a1 is not g^rho for the randomness the key must have", what.c_str(), pats.c_str()));
-        if (w.c1(w.field<G1v>(JV_OK_WK_SK, k.sk, JV_F_SK_A0)) != e.a0) env.fail(prop, "key:a0", strf("%s: pattern %s: a0 is not g2^alpha*(g3*prod h_i^v_i)^rho", what.c_str(), pats.c_str()));
-        if (w.c1(w.field<G1v>(JV_OK_WK_SK, k.sk, JV_F_SK_BSIG)) != e.bsig) env.fail(prop, "key:bsig", what + ": bsig is not hsig^rho (or identity without signature support)");
+        env.soft(w.c2(w.field<G2v>(JV_OK_WK_SK, k.sk, JV_F_SK_A1)) == e.a1, prop, "key:a1", strf("%s: pattern %s: a1 is not g^rho for the randomness the key must have", what.c_str(), pats.c_str()));
+        env.soft(w.c1(w.field<G1v>(JV_OK_WK_SK, k.sk, JV_F_SK_A0)) == e.a0, prop, "key:a0", strf("%s: pattern %s: a0 is not g2^alpha*(g3*prod h_i^v_i)^rho", what.c_str(), pats.c_str()));
+        env.soft(w.c1(w.field<G1v>(JV_OK_WK_SK, k.sk, JV_F_SK_BSIG)) == e.bsig, prop, "key:bsig", what + ": bsig is not hsig^rho (or identity without signature support)");
         env.logf("KEY %s pat=%s a0=%s", what.c_str(), pats.c_str(), sha_hex(e.a0.data(), e.a0.size(), 8).c_str());
         if (roundtrip) key_decrypts(k, prop, what);
+    }
+
+    // C12: if the key lists an element for a slot the accumulated pattern says is hidden, show that the slot can be filled:
+    // qualify it with a value there and open a ciphertext in which that slot is set.
+    void demonstrate_fillable_hidden_slot(KeyM& k, const std::string& what) {
+        int l = R.jv_wk_sk_l(k.sk);
+        for (int i = 0; i < l; i++) {
+            uint32_t idx = R.jv_wk_sk_bidx(k.sk, i);
+            if (idx >= (uint32_t) sys.l || k.pat[idx].st != ST_HIDDEN) continue;
+            std::vector<MAttr> L = list_of_pattern(k.pat); L.push_back({idx, Bn(6), false});
+            std::sort(L.begin(), L.end(), [](const MAttr& a, const MAttr& b) { return a.idx < b.idx; });
+            JAttrs ja(L, false); KeyM child = newkey((size_t) sys.l + 1); child.cap = (size_t) sys.l + 1;
+            call_begin(1); R.jv_wk_nd_qualifykey(view, child.sk, sys.params, k.sk, &ja.l);
+            GTv m, out; call_begin(77); R.jv_wk_random_gt(view, m.b, jv_rand_cb);
+            Buf ct(R.sz(JV_SZ_WK_CT)); call_begin(78); R.jv_wk_encrypt(view, ct, m.b, sys.params, &ja.l, jv_rand_cb);
+            env.lib_calls++; R.jv_wk_decrypt(view, out.b, ct, child.sk);
+            if (w.ct(out) == w.ct(m)) env.fail("C12", "hidden-slot-cannot-be-filled", strf("%s: the key for pattern %s still carries an element for hidden slot %u; nondelegable_qualifykey with a value there yields a key that opens a ciphertext for %s", what.c_str(), pat_str(k.pat).c_str(), idx, list_str(L).c_str()));
+        }
     }
 
     // the key (and the master key) decrypt a fresh ciphertext for exactly the accumulated pattern
@@ -162,14 +181,14 @@ struct WkdRun {
         std::vector<MAttr> L = list_of_pattern(k.pat, (env.step & 1) != 0); JAttrs ja(L, false);
         Buf ct(R.sz(JV_SZ_WK_CT)); call_begin(ss + 1); R.jv_wk_encrypt(view, ct, m.b, sys.params, &ja.l, jv_rand_cb);
         GTv out; env.lib_calls++; R.jv_wk_decrypt(view, out.b, ct, k.sk);
-        if (w.ct(out) != w.ct(m)) env.fail(prop, "key:decrypts-own-pattern", strf("%s: key for pattern %s does not decrypt a ciphertext encrypted to %s", what.c_str(), pat_str(k.pat).c_str(), list_str(L).c_str()));
+        env.soft(w.ct(out) == w.ct(m), prop, "key:decrypts-own-pattern", strf("%s: key for pattern %s does not decrypt a ciphertext encrypted to %s", what.c_str(), pat_str(k.pat).c_str(), list_str(L).c_str()));
         env.lib_calls++; R.jv_wk_decrypt_master(view, out.b, ct, sys.msk);
-        if (w.ct(out) != w.ct(m)) env.fail(prop, "master-decrypts", what + ": master key does not decrypt a ciphertext encrypted under the parameters");
+        env.soft(w.ct(out) == w.ct(m), prop, "master-decrypts", what + ": master key does not decrypt a ciphertext encrypted under the parameters");
         // pairing equation through the library's own product routine: e(a0,g) = e(g2,g1) * e(P,a1)
         G1v P = sys.prod(w, exps_of_pattern(k.pat));
         GTv lhs = w.pair(w.field<G1v>(JV_OK_WK_SK, k.sk, JV_F_SK_A0), sys.g);
         GTv rhs = w.gtmul(sys.pairing, w.pair(P, w.field<G2v>(JV_OK_WK_SK, k.sk, JV_F_SK_A1)));
-        if (w.ct(lhs) != w.ct(rhs)) env.fail(prop, "key:pairing-equation", what + ": e(a0,g) != e(g2,g1)*e(g3*prod h_i^v_i, a1)");
+        env.soft(w.ct(lhs) == w.ct(rhs), prop, "key:pairing-equation", what + ": e(a0,g) != e(g2,g1)*e(g3*prod h_i^v_i, a1)");
     }
 
     void setup() {
@@ -286,7 +305,7 @@ struct WkdRun {
         KeyM* pk = pick_key(op.arg(0)); std::vector<Slot> pat = pk ? pk->pat : std::vector<Slot>((size_t) sys.l);
         PreM p; p.list = derive_list(pat, op.arg(1)); p.pre.alloc(R.sz(JV_SZ_WK_PRE));
         JAttrs ja(p.list, false); env.lib_calls++; R.jv_wk_precompute(view, p.pre, sys.params, &ja.l);
-        env.check(w.c1(w.field<G1v>(JV_OK_WK_PRE, p.pre, 0)) == w.c1(expected_prodexp(p.list)), "C14", "precompute:value", "precompute(" + list_str(p.list) + ") != g3*prod h_i^a_i");
+        env.soft(w.c1(w.field<G1v>(JV_OK_WK_PRE, p.pre, 0)) == w.c1(expected_prodexp(p.list)), "C14", "precompute:value", "precompute(" + list_str(p.list) + ") != g3*prod h_i^a_i");
         env.logf("PRECOMP %s", list_str(p.list).c_str());
         env.add_case("precomp " + std::to_string(p.list.size()), false);
         pres.push_back(std::move(p));
@@ -305,7 +324,7 @@ struct WkdRun {
         std::string was = list_str(p.list);
         env.add_case(strf("adjpre %s->%s", was.c_str(), list_str(to).c_str()), true);
         p.list = to;
-        env.check(w.c1(w.field<G1v>(JV_OK_WK_PRE, p.pre, 0)) == w.c1(expected_prodexp(to)), "C14", "adjust_precomputed:equals-precompute", "adjust_precomputed from " + was + " to " + list_str(to) + " differs from precompute(to)");
+        env.soft(w.c1(w.field<G1v>(JV_OK_WK_PRE, p.pre, 0)) == w.c1(expected_prodexp(to)), "C14", "adjust_precomputed:equals-precompute", "adjust_precomputed from " + was + " to " + list_str(to) + " differs from precompute(to)");
         env.logf("ADJPRE %s -> %s", was.c_str(), list_str(to).c_str());
     }
 
@@ -323,15 +342,15 @@ struct WkdRun {
         if (s.is_zero()) { c.degenerate = true; env.count("probe:encryption_randomness_zero"); }
         // expected ciphertext, component for component
         G1v P = expected_prodexp(L);
-        env.check(w.ct(w.field<GTv>(JV_OK_WK_CT, c.ct, JV_F_CT_A)) == w.ct(w.gtmul(w.gtpow(sys.pairing, s), c.msg)), "C11", "encrypt:A", "ciphertext A != e(g2,g1)^s * m for the s drawn");
-        env.check(w.c2(w.field<G2v>(JV_OK_WK_CT, c.ct, JV_F_CT_B)) == w.c2(w.g2mul(sys.g, s)), "C11", "encrypt:B", "ciphertext B != g^s");
-        env.check(w.c1(w.field<G1v>(JV_OK_WK_CT, c.ct, JV_F_CT_C)) == w.c1(w.g1mul(P, s)), "C11", "encrypt:C", "ciphertext C != (g3*prod h_i^a_i)^s for list " + list_str(L));
+        env.soft(w.ct(w.field<GTv>(JV_OK_WK_CT, c.ct, JV_F_CT_A)) == w.ct(w.gtmul(w.gtpow(sys.pairing, s), c.msg)), "C11", "encrypt:A", "ciphertext A != e(g2,g1)^s * m for the s drawn");
+        env.soft(w.c2(w.field<G2v>(JV_OK_WK_CT, c.ct, JV_F_CT_B)) == w.c2(w.g2mul(sys.g, s)), "C11", "encrypt:B", "ciphertext B != g^s");
+        env.soft(w.c1(w.field<G1v>(JV_OK_WK_CT, c.ct, JV_F_CT_C)) == w.c1(w.g1mul(P, s)), "C11", "encrypt:C", "ciphertext C != (g3*prod h_i^a_i)^s for list " + list_str(L));
         // C14: the precomputed path is interchangeable (same stream => byte-identical ciphertext)
         if (op.arg(3)) {
             Buf pre(R.sz(JV_SZ_WK_PRE)), ct2(R.sz(JV_SZ_WK_CT)); env.lib_calls++; R.jv_wk_precompute(view, pre, sys.params, &ja.l);
             call_begin(ss, &sf); R.jv_wk_encrypt_precomputed(view, ct2, c.msg.b, sys.params, pre, jv_rand_cb);
             std::vector<uint8_t> b1 = wk_marshal(R, view, JV_OK_WK_CT, c.ct, true), b2 = wk_marshal(R, view, JV_OK_WK_CT, ct2, true);
-            env.check(b1 == b2, "C14", "encrypt_precomputed:interchangeable", "encrypt and encrypt_precomputed with the same random stream give different ciphertexts for " + list_str(L));
+            env.soft(b1 == b2, "C14", "encrypt_precomputed:interchangeable", "encrypt and encrypt_precomputed with the same random stream give different ciphertexts for " + list_str(L));
             env.count("probe:encrypt_vs_encrypt_precomputed_compared");
         }
         env.logf("ENC %s ct=%s", list_str(L).c_str(), sha_hex(w.c1(w.field<G1v>(JV_OK_WK_CT, c.ct, JV_F_CT_C)).data(), 97, 8).c_str());
@@ -345,7 +364,7 @@ struct WkdRun {
         GTv out; env.lib_calls++; R.jv_wk_decrypt(view, out.b, c.ct, pk->sk);
         bool opens = w.ct(out) == w.ct(c.msg), should = exps_equal(exps_of_pattern(pk->pat), c.exps);
         env.logf("DEC opens=%d should=%d", opens, should);
-        if (!pk->tainted && !c.tainted && should && !opens) env.fail("C11", "decrypt:matching-key-opens", "key for pattern " + pat_str(pk->pat) + " failed to decrypt a ciphertext for the same attribute values");
+        if (!pk->tainted && !c.tainted && should && !opens) env.soft(false, "C11", "decrypt:matching-key-opens", "key for pattern " + pat_str(pk->pat) + " failed to decrypt a ciphertext for the same attribute values");
         // a key whose randomness is 0 mod r (reachable only through a scripted stream: e.g. rho = 1 from a non-delegable keygen plus a
         // scripted t = r-1) is the bare master secret and opens everything by construction of the scheme; not a negative-oracle subject
         if (pk->rho.is_zero()) env.count("probe:key_randomness_zero");
@@ -393,17 +412,17 @@ struct WkdRun {
         if (sg.expect_valid) {
             Bn rs = Bn::addmod(pk->rho, s, K().r);
             G1v base = w.g1add(expected_prodexp(L), w.g1mul(sys.hsig, Bn::mod(sg.msg, K().r)));
-            env.check(w.c1(w.field<G1v>(JV_OK_WK_SIG, sg.sig, JV_F_SIG_A0)) == w.c1(w.g1add(sys.mskv, w.g1mul(base, rs))), "C13", "sign:a0", "signature a0 != g2^alpha*(hsig^m*prod)^(rho+s) for list " + list_str(L) + " signer pattern " + pat_str(pk->pat));
-            env.check(w.c2(w.field<G2v>(JV_OK_WK_SIG, sg.sig, JV_F_SIG_A1)) == w.c2(w.g2mul(sys.g, rs)), "C13", "sign:a1", "signature a1 != g^(rho+s)");
+            env.soft(w.c1(w.field<G1v>(JV_OK_WK_SIG, sg.sig, JV_F_SIG_A0)) == w.c1(w.g1add(sys.mskv, w.g1mul(base, rs))), "C13", "sign:a0", "signature a0 != g2^alpha*(hsig^m*prod)^(rho+s) for list " + list_str(L) + " signer pattern " + pat_str(pk->pat));
+            env.soft(w.c2(w.field<G2v>(JV_OK_WK_SIG, sg.sig, JV_F_SIG_A1)) == w.c2(w.g2mul(sys.g, rs)), "C13", "sign:a1", "signature a1 != g^(rho+s)");
         }
         if (op.arg(3)) {   // C14: sign_precomputed interchangeable
             Buf pre(R.sz(JV_SZ_WK_PRE)), sig2(R.sz(JV_SZ_WK_SIG)); env.lib_calls++; R.jv_wk_precompute(view, pre, sys.params, &ja.l);
             call_begin(ss, &sf); R.jv_wk_sign_precomputed(view, sig2, sys.params, pk->sk, &ja.l, pre, m32, jv_rand_cb);
-            env.check(wk_marshal(R, view, JV_OK_WK_SIG, sg.sig, true) == wk_marshal(R, view, JV_OK_WK_SIG, sig2, true), "C14", "sign_precomputed:interchangeable", "sign and sign_precomputed with the same stream differ for " + list_str(L));
+            env.soft(wk_marshal(R, view, JV_OK_WK_SIG, sg.sig, true) == wk_marshal(R, view, JV_OK_WK_SIG, sig2, true), "C14", "sign_precomputed:interchangeable", "sign and sign_precomputed with the same stream differ for " + list_str(L));
             env.count("probe:sign_vs_sign_precomputed_compared");
         }
         bool ok = verify_both(sg.list, sg.sig, sg.msg, "fresh signature");
-        if (sg.expect_valid && !ok) env.fail("C13", "verify:accepts-valid", "signature by key " + pat_str(pk->pat) + " on list " + list_str(L) + " does not verify");
+        if (sg.expect_valid && !ok) env.soft(false, "C13", "verify:accepts-valid", "signature by key " + pat_str(pk->pat) + " on list " + list_str(L) + " does not verify");
         // a signer whose key randomness is 0 mod r holds the bare master secret (scripted streams only) and can sign under any list
         if (!sg.expect_valid && ok && !sg.degenerate && !pk->rho.is_zero()) env.fail("C13", "verify:rejects-incompatible-signer", "signature made by a key whose pattern " + pat_str(pk->pat) + " is incompatible with list " + list_str(L) + " verifies");
         env.logf("SIGN %s valid=%d ok=%d", list_str(L).c_str(), sg.expect_valid, ok);
@@ -418,7 +437,7 @@ struct WkdRun {
         int v1 = R.jv_wk_verify(view, sys.params, &ja.l, sig, m32);
         Buf pre(R.sz(JV_SZ_WK_PRE)); R.jv_wk_precompute(view, pre, sys.params, &ja.l);
         int v2 = R.jv_wk_verify_precomputed(view, sys.params, pre, sig, m32);
-        env.check(v1 == v2, "C14", "verify_precomputed:agrees", "verify and verify_precomputed disagree on " + what);
+        env.soft(v1 == v2, "C14", "verify_precomputed:agrees", "verify and verify_precomputed disagree on " + what);
         return v1 != 0;
     }
 
@@ -444,7 +463,7 @@ struct WkdRun {
         if (what.empty()) return;
         bool ok = verify_both(L, sig, m, what);
         env.logf("VERIFY %s expect=%d ok=%d", what.c_str(), expect, ok);
-        if (expect && !ok) env.fail("C13", "verify:accepts-valid", "valid signature rejected (" + what + ")");
+        if (expect && !ok) env.soft(false, "C13", "verify:accepts-valid", "valid signature rejected (" + what + ")");
         if (!expect && ok && !sg.degenerate) env.fail("C13", "verify:rejects-altered", "verification succeeded although " + what + "; signed list " + list_str(sg.list));
         env.count(std::string("fault:verify_") + (expect ? "unaltered" : "altered"));
         env.add_case(strf("verify mut%d n%zu", mut, L.size()), !expect);
